@@ -655,6 +655,20 @@ pub fn c16(tier: Tier) -> i32 {
             trees.push(wrap(vec![e.clone()], depth));
         }
     }
+    // "exactly the eligible files ... at every depth": several eligible files that share a name and / or their
+    // content (vendored copies, versioned directories), at different depths, mixed with ineligible files
+    {
+        let d = |name: &str, children: Vec<Entry>| Entry::Dir { name: name.into(), children };
+        let p = SRC_P.as_bytes();
+        let pq = SRC_PQ.as_bytes();
+        for (k, i) in inelig.iter().enumerate().step_by(if tier == Tier::Quick { 9 } else { 2 }) {
+            let i2 = &inelig[(k + 7) % inelig.len()];
+            trees.push(vec![d("v1", vec![file("Token.sol", p), i.clone()]), d("v2", vec![file("Token.sol", p)])]);
+            trees.push(vec![file("Token.sol", pq), d("mocks", vec![file("Token.sol", pq), i.clone()]), i2.clone()]);
+            trees.push(vec![d("a", vec![d("x", vec![file("Token.sol", p)])]), d("b", vec![d("x", vec![file("Token.sol", p), i.clone()])]), file("Copy.sol", p)]);
+            trees.push(vec![file("One.sol", p), file("Two.sol", p), d("three", vec![file("Three.sol", p), i.clone()])]);
+        }
+    }
     // an eligible file 70 directories deep next to ineligible ones on the way down
     {
         let mut cur: Vec<Entry> = vec![elig[0].clone(), inelig[3].clone()];
